@@ -116,6 +116,9 @@ func (m Common) AuthenticateGetOutbox(c context.Context, w http.ResponseWriter, 
 func (m Common) GetOutbox(c context.Context, r *http.Request) (vocab.ActivityStreamsOrderedCollectionPage, error) {
 	a := m.A
 	iri := a.RewriteLocal("https://" + r.Host + r.URL.Path)
+	if a.AltEndpoints && r.URL.RawQuery != "" {
+		iri += "?" + r.URL.RawQuery
+	}
 	idx, err := a.point(c, "Common.GetOutbox", iri, true)
 	if err != nil {
 		return nil, err
@@ -178,7 +181,7 @@ func (a *App) cb(c context.Context, proto, name string) error {
 		r.Reentered = true
 		if fa, ok := a.Actor(Both).(pub.FederatingActor); ok {
 			note, _ := Decode([]byte(`{"@context":"https://www.w3.org/ns/activitystreams","type":"Note","content":"sent from inside an application callback","to":"https://r1.example/u/carol"}`))
-			_, r.ReenterErr = fa.Send(c, U(a.LocalPrefix()+"/u/alice/outbox"), note)
+			_, r.ReenterErr = fa.Send(c, U(a.RewriteEndpoints(a.LocalPrefix()+"/u/alice/outbox")), note)
 		}
 	}
 	return nil
@@ -363,6 +366,9 @@ func (f Fed) FilterForwarding(c context.Context, potentialRecipients []*url.URL,
 func (f Fed) GetInbox(c context.Context, r *http.Request) (vocab.ActivityStreamsOrderedCollectionPage, error) {
 	a := f.A
 	iri := a.RewriteLocal("https://" + r.Host + r.URL.Path)
+	if a.AltEndpoints && r.URL.RawQuery != "" {
+		iri += "?" + r.URL.RawQuery // query-routed endpoints: the query is part of the inbox's IRI
+	}
 	idx, err := a.point(c, "Fed.GetInbox", iri, true)
 	if err != nil {
 		return nil, err
